@@ -20,6 +20,7 @@ import (
 	"github.com/renbou/grpcbridge/bridgedesc"
 	"github.com/renbou/grpcbridge/bridgelog"
 	"github.com/renbou/grpcbridge/grpcadapter"
+	"github.com/renbou/grpcbridge/internal/verifhook"
 	"google.golang.org/grpc/codes"
 	reflectionpb "google.golang.org/grpc/reflection/grpc_reflection_v1"
 	reflectionalphapb "google.golang.org/grpc/reflection/grpc_reflection_v1alpha"
@@ -174,6 +175,8 @@ func (r *Resolver) Close() {
 
 func (r *Resolver) watch() {
 	for {
+		verifhook.Point("resolver.beforeResolve", r.target)
+
 		state, err := r.resolve()
 		if err == nil && state != nil { // state is nil when it hasn't changed
 			r.watcher.UpdateDesc(state)
@@ -182,9 +185,12 @@ func (r *Resolver) watch() {
 			r.logger.Error("resolution unrecoverably failed, will retry again later", "error", err)
 		}
 
+		verifhook.Point("resolver.beforeSelect", r.target)
+
 		select {
 		case <-r.afterInterval():
 		case <-r.resolveNow:
+			verifhook.Point("resolver.woken", r.target)
 			r.newResolveNow()
 		case <-r.done:
 			close(r.done)
